@@ -208,7 +208,12 @@ def check_status(ctx, F):
                 inner = ev.node.targets[0].value
                 if isinstance(inner, ast.Subscript):
                     ktxt = ast.unparse(inner.slice)
-                keyed = ktxt in ("cold_arm",)
+                cold_names = set()
+                for a in anc:
+                    if a.kind == "for" and isinstance(a.node, ast.For) and isinstance(a.node.target, ast.Tuple) \
+                            and ast.unparse(a.node.iter).endswith(".items()"):
+                        cold_names.add(ast.unparse(a.node.target.elts[0]))
+                keyed = ktxt in cold_names
             whole = ev.fn is not None and ev.fn.name in ("_expectation_operation", "_normalize_expectations")
             ctx.check(keyed or whole, "R13.4", "warm_start writes only entries of cold arms (or re-derives a whole "
                       "dictionary)", ev.node, ev.fn, "store not keyed by the cold arm [%s]" % c.name)
